@@ -1386,6 +1386,30 @@ def replay_known(ctx):
                                 % kid, "impl": rec, "session_text": open(wit).read()})
 
 
+FIXED_WITNESSES = [
+    # (directory under known_findings/, session file, what the session must print)
+    ("DC19.1-failed-import-skips-cache-entry", "session.txt", "14\n2\n"),
+]
+
+
+def replay_fixed(ctx):
+    """Witnesses of repaired findings that need files next to the prompt (so they cannot live in corpus/C19 as session
+    texts): each must now print what the same declarations print without the entry that used to set the defect up."""
+    for kdir, sess, want in FIXED_WITNESSES:
+        d = os.path.join(common.VERIF, "known_findings", kdir)
+        if not os.path.exists(os.path.join(d, sess)):
+            continue
+        rec = _repl_in(d, os.path.join(d, sess))
+        got = strip_prompts(rec.get("stdout", ""))
+        key = kdir.split("-")[0].replace(".", "_") + "_fixed_witness"
+        ctx.cov[key] = [str(rec.get("status"))[:120], got]
+        ctx.count_case(("fixed-witness", kdir), nontrivial=True)
+        if rec.get("status") not in ("Ok:0", "PANIC:Not enough test lines") or got != want:
+            ctx.cov["impl_vs_spec_failures"] += 1
+            ctx.violation(key, {"kind": "implementation-vs-spec", "what": "the witness of the repaired finding %s fails again: the session must print %r"
+                                % (kdir, want), "impl": rec, "session_text": open(os.path.join(d, sess)).read(), "directory": d})
+
+
 def run(ctx):
     proved = ctx.prove("LaytheVerif.Props.C19", extra_targets=("drv_repl",))
     ok_c, out_c = common.cargo_build()
@@ -1434,6 +1458,7 @@ def run(ctx):
         if not ok:
             report(ctx, found[0], found[1], workdir, n)
         replay_known(ctx)
+        replay_fixed(ctx)
     finally:
         shutil.rmtree(workdir, ignore_errors=True)
     ctx.assumptions += [
